@@ -314,8 +314,20 @@ def e_add_required_field(pkg, r):
     return dict(cls=PARTIAL, name="add-required-field", where=(d.name,))
 
 
+def _nullable_through_aliases(pkg, t, depth=0) -> bool:
+    """the type has a null case, directly or because it names an alias (possibly generic) of a type that has one: removing such a field is the
+    *compatible* class 'removing an optional field', which needs no warning"""
+    if isinstance(t, U):
+        return t.nullable
+    if isinstance(t, N) and t.ns is None and depth < 20:
+        d = pkg.find(t.name)
+        if isinstance(d, Al):
+            return _nullable_through_aliases(pkg, d.type, depth + 1)
+    return False
+
+
 def e_remove_required_field(pkg, r):
-    c = _pick(r, [(di, d, i) for di, d in _records(pkg) for i, (_, t) in enumerate(d.fields) if not (isinstance(t, U) and t.nullable) and len(d.fields) > 1
+    c = _pick(r, [(di, d, i) for di, d in _records(pkg) for i, (_, t) in enumerate(d.fields) if not _nullable_through_aliases(pkg, t) and len(d.fields) > 1
                   and not (d.tparams and any(isinstance(x, TP) for x in walk_types(t)))])
     if not c:
         return None
